@@ -66,6 +66,8 @@ def _closed(draw):
             "look_units": draw(st.sampled_from([None, None, "1/cm", "eV"])),
             "refused_first": draw(st.sampled_from([False, False, True])),
             "reuse_psi": draw(st.booleans()),
+            # the conversion back to the laboratory frame is made while other energy units are current
+            "convert_units": draw(st.sampled_from([None, None, "1/cm", "eV", "THz"])),
             # start of the time axis in units of the step
             "k0": draw(st.sampled_from([0, 0, 0, 3, -2, 10]))}
 
@@ -171,6 +173,8 @@ def _check_closed(case, ctx, rho0, coh):
     inctx = bool(case.get("ctx"))
     tag = "closed/" + ("rwa" if rwa is not None else "lab") + ("/in-context" if inctx else "") + ("/t0" if k0 else "")
     ctx.label("in-context" if inctx else "no-context", "t0!=0" if k0 else "t0=0")
+    if rwa is not None and case.get("convert_units"):
+        ctx.label("converted-back-in-units:" + case["convert_units"])
 
     def run():
         hu = case.get("ham_units")
@@ -203,7 +207,11 @@ def _check_closed(case, ctx, rho0, coh):
         else:
             rt = prop.propagate(rhoi, method="short-exp-%d" % order, Nref=nref)
         if rwa is not None:
-            rt.convert_from_RWA(ham)
+            if case.get("convert_units"):
+                with qr.energy_units(case["convert_units"]):
+                    rt.convert_from_RWA(ham)
+            else:
+                rt.convert_from_RWA(ham)
         return ham, numpy.array(rt.data)
     ok, r = guarded(ctx, "closed/propagate", run, tag)
     if not ok:
@@ -264,8 +272,13 @@ def _check_closed(case, ctx, rho0, coh):
             # the density-matrix evolution is taken while the state vectors are still in the rotating frame and
             # converted on its own
             dmo = pe.get_DensityMatrixEvolution()
-            pe.convert_from_RWA(ham2)
-            dmo.convert_from_RWA(ham2)
+            if case.get("convert_units"):
+                with qr.energy_units(case["convert_units"]):
+                    pe.convert_from_RWA(ham2)
+                    dmo.convert_from_RWA(ham2)
+            else:
+                pe.convert_from_RWA(ham2)
+                dmo.convert_from_RWA(ham2)
             dme = numpy.array(dmo.data)
         pr = ReducedDensityMatrixPropagator(ta, ham2)
         rt = pr.propagate(ReducedDensityMatrix(data=numpy.outer(psi0, psi0.conj())), method="short-exp-%d" % order,
